@@ -2,6 +2,8 @@
 package c19
 
 import (
+	"google.golang.org/grpc"
+
 	"context"
 	"fmt"
 	"math/rand"
@@ -36,18 +38,24 @@ type config struct {
 	// (yield point client.q.beforeSend), recvDelay delays the client library's handling of every
 	// received message or stream error (yield point client.recv.beforeHandle).
 	respDelay, reqDelay, sendDelay, recvDelay time.Duration
+	// sharedConn: all clients of all tests of a permutation use ONE gRPC connection per server
+	// that stays open between the tests (the other configurations give every test fresh
+	// connections and close them afterwards, as cmd/ccli does): a Modify session a test
+	// leaves behind then lives on and constrains the tests after it.
+	sharedConn bool
 }
 
 var configs = []config{
-	{"base1/default-names", 1, server.DefaultNetworkInstanceName, "NON-DEFAULT-VRF", 0, 0, 0, 0},
-	{"base1000/renamed", 1000, "default-ni", "vrf-1", 0, 0, 0, 0},
-	{"base2^32/unicode", 1 << 32, "défaut·网络", "vrf with spaces", 0, 0, 0, 0},
-	{"base2^63-2^20/default-names", 1<<63 - 1<<20, server.DefaultNetworkInstanceName, "NON-DEFAULT-VRF", 0, 0, 0, 0},
-	{"base7/slow-responses-3ms", 7, server.DefaultNetworkInstanceName, "NON-DEFAULT-VRF", 3 * time.Millisecond, 0, 0, 0},
-	{"base7/slow-request-handling-3ms", 7, server.DefaultNetworkInstanceName, "NON-DEFAULT-VRF", 0, 3 * time.Millisecond, 0, 0},
-	{"base7/slow-client-enqueue-2ms", 7, server.DefaultNetworkInstanceName, "NON-DEFAULT-VRF", 0, 0, 2 * time.Millisecond, 0},
-	{"base7/slow-client-receive-3ms", 7, server.DefaultNetworkInstanceName, "NON-DEFAULT-VRF", 0, 0, 0, 3 * time.Millisecond},
-	{"base7/slow-client-enqueue-2ms+receive-6ms", 7, server.DefaultNetworkInstanceName, "NON-DEFAULT-VRF", 0, 0, 2 * time.Millisecond, 6 * time.Millisecond},
+	{"base1/default-names", 1, server.DefaultNetworkInstanceName, "NON-DEFAULT-VRF", 0, 0, 0, 0, false},
+	{"base1000/renamed", 1000, "default-ni", "vrf-1", 0, 0, 0, 0, false},
+	{"base2^32/unicode", 1 << 32, "défaut·网络", "vrf with spaces", 0, 0, 0, 0, false},
+	{"base2^63-2^20/default-names", 1<<63 - 1<<20, server.DefaultNetworkInstanceName, "NON-DEFAULT-VRF", 0, 0, 0, 0, false},
+	{"base7/slow-responses-3ms", 7, server.DefaultNetworkInstanceName, "NON-DEFAULT-VRF", 3 * time.Millisecond, 0, 0, 0, false},
+	{"base7/slow-request-handling-3ms", 7, server.DefaultNetworkInstanceName, "NON-DEFAULT-VRF", 0, 3 * time.Millisecond, 0, 0, false},
+	{"base7/slow-client-enqueue-2ms", 7, server.DefaultNetworkInstanceName, "NON-DEFAULT-VRF", 0, 0, 2 * time.Millisecond, 0, false},
+	{"base7/slow-client-receive-3ms", 7, server.DefaultNetworkInstanceName, "NON-DEFAULT-VRF", 0, 0, 0, 3 * time.Millisecond, false},
+	{"base7/slow-client-enqueue-2ms+receive-6ms", 7, server.DefaultNetworkInstanceName, "NON-DEFAULT-VRF", 0, 0, 2 * time.Millisecond, 6 * time.Millisecond, false},
+	{"base3/shared-connection", 3, server.DefaultNetworkInstanceName, "NON-DEFAULT-VRF", 0, 0, 0, 0, true},
 }
 
 // newServer builds a reference server whose default NI and VRF carry the configured names.
@@ -70,9 +78,16 @@ func newServer(cfg config, noFwdRef bool) (*server.Server, error) {
 
 type env struct {
 	gs *drv.GRPCServer
+	// shared, when set, is the one connection every client of this environment uses.
+	shared *grpc.ClientConn
 }
 
 func (e *env) client() (*fluent.GRIBIClient, func()) {
+	if e.shared != nil {
+		c := fluent.NewClient()
+		c.Connection().WithStub(spb.NewGRIBIClient(e.shared))
+		return c, func() {}
+	}
 	cc, _, err := e.gs.Dial()
 	if err != nil {
 		panic(err)
@@ -223,6 +238,17 @@ func conformant(col *child.Collector, wr *child.Writer, sp *child.Spec, cfg conf
 	em, es := &env{gs: drv.Serve(im)}, &env{gs: drv.Serve(is)}
 	defer em.gs.Stop()
 	defer es.gs.Stop()
+	if cfg.sharedConn {
+		for _, e := range []*env{em, es} {
+			cc, _, err := e.gs.Dial()
+			if err != nil {
+				col.Fatal(err.Error())
+				return
+			}
+			defer cc.Close()
+			e.shared = cc
+		}
+	}
 	r := rand.New(rand.NewSource(sp.Seed*7919 + int64(perm)*104729 + int64(len(cfg.name))))
 	order := r.Perm(len(compliance.TestSuite))
 	var names []string
